@@ -40,7 +40,9 @@ func c15Class(r *rand.Rand) *gast.ClassSpec {
 		}
 		return pool[r.Intn(len(pool))]
 	}
-	ok := func(x rune) bool { return x != '\n' && x != utf8.RuneError && unicode.IsPrint(x) || x == '\t' || x == ' ' }
+	ok := func(x rune) bool {
+		return x != '\n' && x != utf8.RuneError && unicode.IsPrint(x) || x == '\t' || x == ' '
+	}
 	n := 1 + r.Intn(3)
 	for i := 0; i < n; i++ {
 		switch r.Intn(5) {
